@@ -179,6 +179,7 @@ class MultiTrackLargeVocabularyNotelikeTokeniser:
                     raise TokenisationException(f"Invalid note pitch: {msg_note}")
                 if msg_value not in self.note_values:
                     raise TokenisationException(f"Invalid note value: {msg_value}")
+                msg_value = int(msg_value)
 
                 token = ""
 
